@@ -91,6 +91,60 @@ func iidx(k: interface{}) => int {
 `},
 }
 
+func init() {
+	keyKinds = append(keyKinds, keyKind{name: "interface_wide", typ: "interface{}", mk: "ikey2(i)", idx: "r = iidx2(k)", needsP: true,
+		decls: `
+type PK :struct {
+	id:  int
+	pad: string
+}
+global ptrPool: []*PK
+type IK :struct {
+	a: int
+	b: string
+}
+func ikey2(i: int) => interface{} {
+	switch i % 7 {
+	case 0:
+		return i%2 == 0
+	case 1:
+		return u8(i / 7 % 256)
+	case 2:
+		return IK{a: i, b: "s"}
+	case 3:
+		return ptrPool[i]
+	case 4:
+		return u32(i) * 2654435761
+	case 5:
+		return "w" + itoa(i)
+	}
+	return i64(i) - 1000
+}
+func iidx2(k: interface{}) => int {
+	switch v := k.(type) {
+	case bool:
+		if v {
+			return 0
+		}
+		return 7
+	case u8:
+		return int(v)*7 + 1
+	case IK:
+		return v.a
+	case *PK:
+		return v.id
+	case u32:
+		return int(v * 244002641)
+	case string:
+		return atoi(v[1:])
+	case i64:
+		return int(v + 1000)
+	}
+	return -1
+}
+`})
+}
+
 type valKind struct {
 	name  string
 	typ   string
